@@ -89,6 +89,8 @@ def mworld (m : Mach) (fuel : Nat) : World M MV where
   unstar _ := throw "TypeError"
   format _ := throw "TypeError"
   concat _ := throw "TypeError"
+  dict _ := throw "TypeError"
+  whileLoop _ _ _ := throw "Unsupported"
   other _ := throw "Unsupported"
   throw cls := throw cls
   rethrow := throw "reraise"
